@@ -75,10 +75,15 @@ def get_convergence_format(epsilon: float, max_decimals: int = 10) -> str:
     if max_decimals <= 0:
         raise ValueError("max_decimals must be positive")
 
+    # A non-finite threshold (e.g. gamma == 0 gives an infinite threshold)
+    # needs no decimal places
+    if not np.isfinite(epsilon):
+        return ".0f"
+
     # Get number of decimal places needed to show changes above epsilon
     # Add 1 to ensure we can see changes until below epsilon
     decimal_places = -int(np.floor(np.log10(epsilon))) + 1
-    # Cap at max_decimals
-    decimal_places = min(decimal_places, max_decimals)
+    # Cap at max_decimals, and never go below zero (thresholds >= 100)
+    decimal_places = max(0, min(decimal_places, max_decimals))
 
     return f".{decimal_places}f"
